@@ -171,3 +171,16 @@ class OneOf:
 
     def __repr__(self) -> str:
         return "OneOf(" + " | ".join(map(repr, self.alts)) + ")"
+
+
+@dataclass(frozen=True)
+class Term:
+    """Symbolic expression built by calls into an un-analysed library (e.g. SQLAlchemy)."""
+
+    head: str
+    args: tuple = ()
+
+    def __repr__(self) -> str:
+        if not self.args:
+            return self.head
+        return f"{self.head}(" + ", ".join(map(repr, self.args)) + ")"
